@@ -770,6 +770,26 @@ impl<'a> Ev<'a> {
             }
         }
         let line = line_of(m);
+        // --- raw emission: `w.write_all(text.as_bytes())` / `w.write_str(text)` put text into the sink like `write!(w, "{}", text)` ---
+        if matches!(name.as_str(), "write_all" | "write_str") && args.len() == 1 {
+            let mut text = args[0].clone();
+            // strip `.as_bytes()` / `&` / `.as_str()` around the text
+            loop {
+                let k = text.get("k").and_then(|k| k.as_str()).unwrap_or("").to_string();
+                if k == "call" && matches!(text.get("f").and_then(|f| f.as_str()), Some("as_bytes") | Some("as_str") | Some("as_ref")) && text.get("recv").map(|r| !r.is_null()).unwrap_or(false) {
+                    text = text["recv"].clone();
+                } else if k == "ref" || k == "paren" {
+                    text = text["v"].clone();
+                } else {
+                    break;
+                }
+            }
+            let is_bytes_lit = text.get("k").and_then(|k| k.as_str()) == Some("lit") && text.get("t").and_then(|t| t.as_str()) == Some("other");
+            if self.silent == 0 && !is_bytes_lit {
+                let f = json!({"k":"fmt","parts":[{"hole":text,"named":Value::Null,"spec":""}],"named_bindings":{},"line":line,"raw":true});
+                self.sites.push(json!({"macro":name,"sink":recv,"sink_text":tok(&m.receiver),"fmt":f,"nl":false,"line":line,"guard":self.guard_json(),"parent":parent}));
+            }
+        }
         // --- local container mutation ---
         if matches!(name.as_str(), "push" | "insert" | "push_str" | "extend" | "append" | "push_back") {
             if let Expr::Path(p) = &*m.receiver {
